@@ -212,8 +212,10 @@ class Merged:
             try:
                 out = subprocess.run(
                     ['python3-vt', '-c',
-                     'import numpy,sys;print(len(numpy.unique(numpy.fromfile('
-                     'sys.argv[1],dtype=numpy.int64))))', path],
+                     'import numpy,sys;a=numpy.fromfile(sys.argv[1],'
+                     'dtype=numpy.int64);a.sort();'
+                     'print(int((a[1:]!=a[:-1]).sum())+1 if len(a) else 0)',
+                     path],
                     capture_output=True, text=True, timeout=600)
                 if out.returncode == 0:
                     return int(out.stdout.strip())
